@@ -269,8 +269,47 @@ def make_pred(task):
     return pred
 
 
+# ------------------------------------------------------------------ several tasks in one interpreter
+# Every per-task sub-property runs in its own worker process.  Shared helpers (util.filter_kwargs ...) are used by all tasks, so state
+# they might keep between calls can only show when different tasks are evaluated one after the other in the same process.
+
+@st.composite
+def sequence_case(draw):
+    k = draw(st.integers(2, 4))
+    steps = []
+    for _ in range(k):
+        t = draw(st.sampled_from(R.TASKS))
+        c = draw(R.STRATEGIES[t]())
+        c["junk"] = False
+        # make keyword routing matter: each task gets at least one of its own keywords where it has any
+        if not c["kw"] and t in FORCE_KW:
+            c["kw"] = dict(FORCE_KW[t])
+        steps.append({"task": t, "case": c})
+    return {"steps": steps}
+
+
+FORCE_KW = {"beat": {"f_measure_threshold": 0.0625}, "onset": {"window": 0.125}, "segment": {"beta": 2.0}, "tempo": {"tol": 0.25},
+            "transcription": {"onset_tolerance": 0.125}, "transcription_velocity": {"velocity_tolerance": 0.3}, "alignment": {"window": 0.5},
+            "hierarchy": {"beta": 2.0}, "melody": {"cent_tolerance": 25}, "multipitch": {"window": 0.25}, "pattern": {"n": 2}}
+_PREDS = {}
+
+
+def pred_sequence(case, ctx):
+    nt = False
+    for stp in case["steps"]:
+        t = stp["task"]
+        if t not in _PREDS:
+            _PREDS[t] = make_pred(t)
+        _PREDS[t](stp["case"], ctx)
+        ctx.event("step:" + t)
+    tasks = [s_["task"] for s_ in case["steps"]]
+    return len(set(tasks)) >= 2
+
+
 N = {"beat": (500, 12000), "onset": (400, 8000), "segment": (350, 8000), "chord": (300, 6000), "hierarchy": (150, 3000), "melody": (400, 8000),
      "multipitch": (300, 6000), "transcription": (400, 8000), "transcription_velocity": (300, 6000), "tempo": (300, 6000), "key": (200, 3000),
      "pattern": (400, 8000), "alignment": (300, 6000)}
-SUBPROPS = [SubProp(t, make_pred(t), strategy=make_strategy(t), n=N[t], shards=(2 if t in ("segment", "hierarchy", "beat") else 1, 8), floor=0.2,
+SUBPROPS = [SubProp("task_sequences_in_one_process", pred_sequence, strategy=sequence_case, n=(600, 12000), shards=(8, 16), floor=0.3,
+                    rule="2-4 evaluate() calls of (mostly different) tasks in one interpreter, each compared with direct calls; NT = at least two different tasks")]
+SUBPROPS += [SubProp(t, make_pred(t), strategy=make_strategy(t), n=N[t], shards=(2 if t in ("segment", "hierarchy", "beat") else 1, 8), floor=0.2,
                     rule="evaluate() of mir_eval.%s vs direct calls; NT = keyword(s) passed or an empty side" % t) for t in R.TASKS]
